@@ -108,9 +108,19 @@ func cast(iface interface{}) interface{} {
 	// integral values as int64, lengths as uint32).
 	case int:
 		return float64(v)
-	case int64:
+	case int8:
+		return float64(v)
+	case int16:
 		return float64(v)
 	case int32:
+		return float64(v)
+	case int64:
+		return float64(v)
+	case uint:
+		return float64(v)
+	case uint8:
+		return float64(v)
+	case uint16: // What otto exports for a 'charCodeAt'.
 		return float64(v)
 	case uint32:
 		return float64(v)
